@@ -651,6 +651,7 @@ def run(chk):   # noqa
     _markguard_rule(chk, prog)
     _stale_fiberptr(chk, prog)
     _markbit_rule(chk, prog)
+    _viewpin_rule(chk, prog, S)
 
 
 def _markbit_rule(chk, prog):
@@ -726,3 +727,89 @@ def _markbit_rule(chk, prog):
                                   "pointer: an object it still points at is no longer marked and the next collection frees it" % (
                                       st.text()[:50], mask, rec, ff, mfn, rec, pf, fn.name))
     chk.floor(rule, 4)
+
+
+VIEW_SOURCES = ("janet_getbytes", "janet_optbytes")
+# argument decoders that can re-enter the interpreter only through the `length` method of an abstract operand;
+# the operand of a byte view is a string / symbol / keyword / buffer
+VIEW_DECODERS = ("janet_getslice", "janet_gethalfrange", "janet_getstartrange", "janet_getendrange", "janet_length", "janet_lengthv")
+
+
+def _viewpin_rule(chk, prog, S):
+    """janet_getbytes hands a C function a raw pointer into its argument; when the argument is a buffer that memory
+    belongs to a mutable object.  A C function that keeps such a view while it calls back into Janet code (a
+    substitution function, a function inside a PEG) lets that code resize the buffer: the view then points at freed
+    memory.  Such a function has to pin the bytes: work on a private immutable copy of a buffer argument, or re-validate
+    the buffer's storage right after every call-back and refuse to continue if it moved."""
+    rule = "C01-VIEWPIN"
+    chk.rule(rule, "a C function that keeps a byte view of an argument across a call back into Janet copies buffer arguments first or re-validates the buffer after each call-back")
+    n = 0
+    for fn in prog.all_funcs():
+        ps = [p_.get("t", "") for p_ in fn.params]
+        if not (len(ps) == 2 and "Janet *" in ps[1] and "int32_t" in ps[0]):
+            continue
+        T, seen, frontier = [fn], {fn.name}, [fn]
+        for _ in range(2):
+            nxt = []
+            for f in frontier:
+                for c in f.calls():
+                    g = fn.tu.funcs.get(c.callee) if c.callee else None
+                    if g is not None and g.name not in seen:
+                        seen.add(g.name)
+                        T.append(g)
+                        nxt.append(g)
+            frontier = nxt
+        views = [(f, c) for f in T for c in f.calls() if c.callee in VIEW_SOURCES]
+        if not views:
+            continue
+        reenters = [(f, c) for f in T for c in f.calls()
+                    if c.callee not in VIEW_DECODERS and c.callee not in VIEW_SOURCES and S.call_in(f, c, S.may_relocate)
+                    and not (c.callee and fn.tu.funcs.get(c.callee) in T)]
+        if not reenters:
+            continue
+        chk.analysed(fn)
+        # (a) private copy of buffer arguments: argv[i] = <string copy> under a test for JANET_BUFFER
+        copies = False
+        for f in T:
+            for x in f.nodes:
+                if x.k == "asg" and x.op == "=" and x.kids[0].k == "sub" and any(c.k == "call" and c.callee in ("janet_stringv", "janet_string") for c in x.kids[1].walk()):
+                    for a in x.ancestors():
+                        if a.k == "if" and any((y.k == "ref" and y.name == "JANET_BUFFER") or "JANET_BUFFER" in y.text() for y in a.kids[0].walk()):
+                            copies = True
+        # (b) a re-validation helper: compares a JanetBuffer's data pointer and raises
+        checkers = set()
+        for f in fn.tu.funcs.values():
+            cmp_ = any(x.k == "bin" and x.op in ("!=", "==") and any(y.k == "mem" and y.field == "data" and y.rec == "JanetBuffer" for y in x.walk()) for x in f.nodes)
+            raises = any(prog.is_noreturn(c.callee or "") for c in f.calls())
+            if cmp_ and raises:
+                checkers.add(f.name)
+        for (f, c) in reenters:
+            n += 1
+            chk.instance(rule)
+            if copies:
+                chk.ok(rule, "%s: buffer arguments are replaced by private string copies before `%s`" % (fn.name, c.text()[:40]))
+                continue
+            # must-pass-through: after the call-back the next call on every path is a re-validation
+            def transfer(st, x, c=c):
+                if x is c:
+                    return frozenset(["dirty"])
+                if x.k == "call" and x.callee in checkers:
+                    return frozenset()
+                return st
+            IN, OUT = flow.forward(f, frozenset(), transfer, lambda a, b: a | b)
+            bad = None
+            for x, st in flow.states_at(f, IN, transfer):
+                if "dirty" in st and x is not c and x.k == "call" and x.callee not in checkers and not prog.is_noreturn(x.callee or ""):
+                    bad = bad or x
+            ex = IN.get(f.exit)
+            if bad is None and ex and "dirty" in ex:
+                bad = c
+            if bad is None:
+                chk.ok(rule, "%s: `%s` is followed by a re-validation of the subject buffer on every path" % (f.name, c.text()[:40]))
+            else:
+                chk.violation(rule, fn.tu.name, fn.name, "%s:%s" % (f.name, c.callee or "pointer-call"), c.loc,
+                              "%s keeps a byte view taken with %s while `%s` (in %s) can run Janet code; that code can resize a buffer "
+                              "argument, and the next use of the view (%s) reads freed memory. No private copy of buffer arguments and no "
+                              "re-validation after the call-back was found" % (
+                                  fn.name, views[0][1].callee, c.text()[:50], f.name, bad.loc))
+    chk.floor(rule, 6, n)
